@@ -233,8 +233,11 @@ func (e *Engine) evalIdent(st *State, id *ast.Ident) Value {
 func (e *Engine) globalVar(st *State, o *types.Var) Value {
 	if e.prog.globalsAssigned[o] {
 		if !isErrorType(o.Type()) {
-			e.noteAssumption("package variable " + o.Pkg().Name() + "." + o.Name() + " read as arbitrary value")
-			return e.symbolic(st, "g_"+o.Name(), o.Type())
+			// a package variable that the program assigns lives in a heap cell of its own: stable between reads,
+			// forgotten wherever the heap is (calls with unknown effects, loop heads), writes are frame-checked
+			e.noteAssumption("package variable " + o.Pkg().Name() + "." + o.Name() + " modelled as a heap cell (sequential semantics: no concurrent writer)")
+			pl := e.globalPlace(st, o)
+			return e.loadPlace(st, pl)
 		}
 	}
 	if v, ok := e.globals[o]; ok {
@@ -285,6 +288,38 @@ func (e *Engine) globalVar(st *State, o *types.Var) Value {
 	e.globals[o] = v
 	e.globalOrder = append(e.globalOrder, o)
 	return v
+}
+
+// globalPlace: the heap cell(s) of an assigned package variable (allocated before the function is entered).
+func (e *Engine) globalPlace(st *State, o *types.Var) place {
+	a, ok := e.globalAddrs[o]
+	if !ok {
+		e.permDecl++
+		a = e.fresh("ga_"+o.Pkg().Name()+"_"+o.Name(), SInt)
+		e.permDecl--
+		n := int64(e.cells(o.Type()))
+		base := e.alloc0
+		if base.s == "" {
+			base = st.alloc
+		}
+		e.assumeGlobal(And(Le(I(1), a), Le(Add(a, I(n)), base)), "package variable cell exists before entry")
+		for _, oo := range e.globalAddrOrder {
+			b := e.globalAddrs[oo]
+			m := int64(e.cells(oo.Type()))
+			e.assumeGlobal(Or(Le(Add(a, I(n)), b), Le(Add(b, I(m)), a)), "distinct package variables occupy distinct cells")
+		}
+		if e.globalAddrs == nil {
+			e.globalAddrs = map[*types.Var]T{}
+		}
+		e.globalAddrs[o] = a
+		e.globalAddrOrder = append(e.globalAddrOrder, o)
+	}
+	key := ""
+	switch under(o.Type()).(type) {
+	case *types.Basic, *types.Pointer, *types.Map, *types.Chan, *types.Signature, *types.Slice, *types.Interface:
+		key = "G_" + sanitize(o.Pkg().Name()+"."+o.Name())
+	}
+	return place{addr: a, isAddr: true, typ: o.Type(), key: key}
 }
 
 func isErrorType(t types.Type) bool {
@@ -428,9 +463,9 @@ func (e *Engine) evalBinary(st *State, n *ast.BinaryExpr) Value {
 		// obligations of the right operand are guarded by the left one
 		save := st.pc
 		if n.Op == token.LAND {
-			st.pc = e.name("pc", And(st.pc, l))
+			st.pc = e.nameQ("pc", And(st.pc, l)) // not named under a quantifier: l may mention the bound variables
 		} else {
-			st.pc = e.name("pc", And(st.pc, Not(l)))
+			st.pc = e.nameQ("pc", And(st.pc, Not(l)))
 		}
 		if st.pc.s != save.s {
 			e.exprPcParent[st.pc.s] = save.s // a refinement inside one expression, not a program path of its own
@@ -809,6 +844,9 @@ func (e *Engine) placeOf(st *State, x ast.Expr) place {
 					return place{addr: lv.addr, isAddr: true, typ: vo.Type()}
 				}
 				return place{val: v, typ: vo.Type()}
+			}
+			if vo.Pkg() != nil && vo.Parent() == vo.Pkg().Scope() && e.prog.globalsAssigned[vo] && !isErrorType(vo.Type()) {
+				return e.globalPlace(st, vo)
 			}
 		}
 	case *ast.StarExpr:
